@@ -25,8 +25,16 @@ Patterns
                  array (a write-back of an *equal* value is caught, too); sub-case `int32`
                  converts the innermost lists / re-types int64 arrays to writable int32 arrays
                  (a write-back of a value that does not fit / of another dtype changes the bytes)
+    view         every caller array is handed over as a VIEW into a larger caller-owned buffer whose
+                 other bytes are snapshotted too: sub-case `row` (a contiguous row of a table with a
+                 row before and after), sub-case `strided+lists` (every other element of a buffer,
+                 and every flat / rectangular list or tuple of numbers - y0, x_span, bd_cond,
+                 r_interval, sector tables - as a float64 / int64 row view).  Nothing is
+                 write-protected: the comparison is on the bytes (LAPACK ignores the flag)
     cb-identity  every user callback returns (a view of) the array it received
     cb-cached    every user callback returns one cached constant array per result shape
+
+In every pattern the ultimate base of a caller array that is itself a view is snapshotted as well.
 
 Parameter-level audit (`param_audit`, also `python -m harness.props.c20_registry --audit`): every
 public callable is watched with `sys.setprofile` while the entries run; for each parameter the
@@ -53,7 +61,7 @@ import zlib
 
 import numpy as np
 
-PATTERNS = ["rw", "ro", "alias", "list", "int-array", "cb-identity", "cb-cached"]
+PATTERNS = ["rw", "ro", "alias", "list", "int-array", "view", "cb-identity", "cb-cached"]
 GRID_MODULES = [
     "angular", "atomgrid", "basegrid", "becke", "coulomb", "cubic", "hirshfeld", "molgrid",
     "ngrid", "ode", "onedgrid", "periodicgrid", "poisson", "robust_poisson", "rtransform", "utils",
@@ -149,6 +157,13 @@ def _walk(obj, path, st: _State, seen: set, in_obj=False, depth=0):
             return
         seen.add(i)
         st.arrays.append((path, obj))
+        # a view: the memory around it is the caller's, too
+        b = obj
+        while isinstance(b.base, np.ndarray):
+            b = b.base
+        if b is not obj and id(b) not in seen:
+            seen.add(id(b))
+            st.arrays.append((path + "<base>", b))
         return
     if isinstance(obj, (list, tuple)):
         if i in seen:
@@ -423,6 +438,61 @@ def _apply_alias(kwargs, st: _State):
 
 
 # ----------------------------------------------------------------------------
+# views into larger caller buffers
+# ----------------------------------------------------------------------------
+def _numseq(v, depth=0):
+    """Is `v` a non-empty flat or rectangular list/tuple of real numbers (no bools)? -> dtype or None"""
+    if not isinstance(v, (list, tuple)) or not v or depth > 2:
+        return None
+    if all(isinstance(e, (int, float, np.integer, np.floating)) and not isinstance(e, (bool, np.bool_)) for e in v):
+        return np.dtype(np.int64) if all(isinstance(e, (int, np.integer)) for e in v) else np.dtype(np.float64)
+    ds = [_numseq(e, depth + 1) for e in v]
+    if all(d is not None for d in ds) and len({len(e) for e in v}) == 1:
+        return np.dtype(np.float64) if any(d == np.float64 for d in ds) else np.dtype(np.int64)
+    return None
+
+
+def _as_view(a: np.ndarray, sub: str, rng_byte: int):
+    """-> (view equal to `a`, its buffer); the buffer's other cells hold a recognisable filler."""
+    fill = np.array(rng_byte + 3).astype(a.dtype) if a.dtype.kind in "iuf" else np.zeros((), a.dtype)
+    if sub == "row" or a.ndim == 0:
+        buf = np.empty((3,) + a.shape, dtype=a.dtype)
+        buf[...] = fill
+        buf[1] = a
+        return buf[1], buf
+    buf = np.empty(a.shape[:-1] + (2 * a.shape[-1] + 1,), dtype=a.dtype)
+    buf[...] = fill
+    buf[..., 1::2] = a
+    return buf[..., 1::2], buf
+
+
+def _apply_view(kwargs, st: _State):
+    ro_ids = {id(a) for a in st.always_ro}
+    with_lists = st.sub != "row"
+    kind = "row" if st.sub == "row" else "strided"
+
+    def visit(parent, items, path, depth):
+        for k, v in items:
+            p = f"{path}[{k!r}]" if path else str(k)
+            if id(v) in ro_ids:
+                continue
+            if isinstance(v, np.ndarray) and v.dtype.kind in "iufcb" and v.size > 0:
+                view, _buf = _as_view(v, kind, len(st.converted))
+                parent[k] = view
+                st.converted.append(f"{p}: {kind} view of a {list(_buf.shape)} buffer")
+            elif with_lists and _numseq(v) is not None:
+                view, _buf = _as_view(np.array(v, dtype=_numseq(v)), "row", len(st.converted))
+                parent[k] = view
+                st.converted.append(f"{p}: {type(v).__name__} -> row view of a {list(_buf.shape)} buffer")
+            elif depth < 3 and isinstance(v, dict):
+                visit(v, list(v.items()), p, depth + 1)
+            elif depth < 3 and isinstance(v, list):
+                visit(v, list(enumerate(v)), p, depth + 1)
+
+    visit(kwargs, list(kwargs.items()), "", 0)
+
+
+# ----------------------------------------------------------------------------
 # integer sequences: list / int-array kinds
 # ----------------------------------------------------------------------------
 def _is_pyint(x) -> bool:
@@ -572,6 +642,12 @@ def _execute(ent: Entry, pattern: str, seed: int, sub: str = "same", protect: bo
             res["applicable"] = False
             return res
         res["aliased"] = list(st.aliased)
+    if pattern == "view":
+        _apply_view(kwargs, st)
+        if not st.converted:
+            res["applicable"] = False
+            return res
+        res["aliased"] = list(st.converted)
     if pattern in ("list", "int-array"):
         _apply_intseq(kwargs, st)
         res["nslots"] = st.nslots
@@ -642,7 +718,7 @@ def _execute(ent: Entry, pattern: str, seed: int, sub: str = "same", protect: bo
     for (p, a), s in zip(st.arrays, snaps):
         d = _array_diff(a, s)
         if d:
-            viol.append({"argname": p.split("[")[0].split(".")[0], "object": p, "kind": "array", **d})
+            viol.append({"argname": p.split("[")[0].split(".")[0].replace("<base>", ""), "object": p, "kind": "array", **d})
     for (p, c), s in zip(st.containers, csnaps):
         d = _struct_diff(s, _struct(c), p)
         if d:
@@ -676,6 +752,8 @@ def _subs(pattern, ent):
         return ["same"] if ent.slow else ["same", "overlap"]
     if pattern == "int-array":
         return ["int64-ro", "int32"]
+    if pattern == "view":
+        return ["row"] if ent.slow else ["row", "strided+lists"]
     return ["same"]
 
 
@@ -1011,7 +1089,7 @@ def _value_kind(v) -> str:
     return type(v).__name__
 
 
-def param_audit(levels=(0,), patterns=("rw", "ro", "alias", "list", "int-array", "cb-identity"), seed=0,
+def param_audit(levels=(0,), patterns=("rw", "ro", "alias", "list", "int-array", "view", "cb-identity"), seed=0,
                 include_slow=True, limit=60.0) -> dict:
     """Run every entry once per pattern under the watcher; -> ParamAudit.report()."""
     _load_entries()
@@ -1185,7 +1263,7 @@ def run(ctx, budget: str, flagged: set) -> None:
                     1 for r in rep["parameters"] if r["intseq"] and "list" in r["intseq_forms"]
                     and any(x.startswith("array") for x in r["intseq_forms"])),
                 "fed_with_caller_data": {pat: sum(1 for r in rep["parameters"] if r["owned"].get(pat))
-                                         for pat in ("rw", "ro", "alias", "list", "int-array")},
+                                         for pat in ("rw", "ro", "alias", "list", "int-array", "view")},
                 "holes": [f"{h['callable']}({h['param']}): {h['missing']}" for h in rep["holes"]],
             }
             if rep["holes"]:
@@ -3270,6 +3348,91 @@ def _entries_round3():
     @entry("coulomb.coulomb_gaussian_s", "alpha-0d-array")
     def _(rng, lv):
         return (lambda r, alpha: cmod.coulomb_gaussian_s(r, alpha)), dict(r=rng.uniform(0.0, 3.0, 6), alpha=np.array(1.3))
+
+
+    # -- (j) ODE initial values / boundary conditions / intervals in every container kind, for orders
+    #        1, 2 and 3, with and without a transform (for order 3 with a transform the initial
+    #        derivatives are obtained from a 2x2 linear solve: a LAPACK call that is allowed to
+    #        overwrite its right-hand side writes into a *view* of the caller's y0, whatever its
+    #        writeable flag says)
+    from grid.ode import solve_ode_ivp
+    from grid.rtransform import BeckeRTransform as _Becke
+
+    def rhs(x):
+        return np.sin(x) + 1.0
+
+    def ode_coeffs(order, kind):
+        vals = [1.0, 0.5, 2.0, 1.5][: order + 1]
+        if kind == "array":
+            return np.array(vals)
+        if kind == "list":
+            return list(vals)
+        return [CB(lambda x, v=v: v + 0.1 * x) if i % 2 == 0 else v for i, v in enumerate(vals)]
+
+    for order in (1, 2, 3):
+        for tf in (False, True):
+            for yform in ("list", "tuple-as-list", "array", "int-array", "row-view", "strided-view", "float32"):
+                @entry("ode.solve_ode_ivp", f"order{order}{'-transform' if tf else ''}-y0-{yform}")
+                def _(rng, lv, order=order, tf=tf, yform=yform):
+                    vals = [float(v) for v in rng.normal(size=order)]
+                    if yform == "int-array":
+                        vals = [float(int(v * 3)) for v in vals]
+                    table = np.full((3, order), 7.25)
+                    table[1] = vals
+                    strided = np.full(2 * order + 1, 7.25)
+                    strided[1::2] = vals
+                    y0 = {"list": list(vals), "tuple-as-list": list(vals), "array": np.array(vals),
+                          "int-array": np.array(vals).astype(int), "row-view": table[1], "strided-view": strided[1::2],
+                          "float32": np.array(vals, dtype=np.float32)}[yform]
+                    span = (-0.9, -0.1) if tf else (0.1, 0.8)
+                    kw = dict(x_span=np.array(span) if rng.random() < 0.5 else span, fx=CB(rhs),
+                              coeffs=ode_coeffs(order, str(rng.choice(["array", "list", "mixed"]))), y0=y0,
+                              pts=RO(np.linspace(span[0] + 0.05, span[1] - 0.05, 3)))
+                    transform = _Becke(0.05, 1.2) if tf else None
+                    nod = bool(rng.integers(0, 2))
+
+                    def call(x_span, fx, coeffs, y0, pts):
+                        sol = solve_ode_ivp(x_span, fx, coeffs, y0, transform, no_derivatives=nod, method="RK45",
+                                            rtol=1e-4, atol=1e-5)
+                        return sol(pts)
+                    return call, kw
+
+            for bform in ("lists", "tuples", "int-array", "int-row-view", "float-array", "object-array"):
+                @entry("ode.solve_ode_bvp", f"order{order}{'-transform' if tf else ''}-bd_cond-{bform}")
+                def _(rng, lv, order=order, tf=tf, bform=bform):
+                    n = 8
+                    x = np.linspace(-0.9, 0.5, n) if tf else np.linspace(0.0, 1.5, n)
+                    rows = [[0, 0, 0], [1, 0, 1], [0, 1, 1]][:order]
+                    table = np.full((3, order, 3), 9)
+                    table[1] = rows
+                    bd = {"lists": [list(r_) for r_ in rows], "tuples": [tuple(r_) for r_ in rows], "int-array": np.array(rows),
+                          "int-row-view": table[1], "float-array": np.array(rows, dtype=float),
+                          "object-array": np.array(rows, dtype=object)}[bform]
+                    kw = dict(x=x, fx=CB(rhs), coeffs=ode_coeffs(order, str(rng.choice(["array", "list", "mixed"]))), bd_cond=bd,
+                              initial_guess_y=rng.normal(size=(order, n)))
+                    transform = _Becke(0.05, 1.2) if tf else None
+
+                    def call(x, fx, coeffs, bd_cond, initial_guess_y):
+                        sol = solve_ode_bvp(x, fx, coeffs, bd_cond, transform, tol=1e-2, max_nodes=300,
+                                            initial_guess_y=initial_guess_y)
+                        return sol(x[1:-1])
+                    return call, kw
+
+    for rform in ("tuple", "list", "array", "row-view", "int-array"):
+        @entry("poisson.solve_poisson_ivp", f"atomgrid-r_interval-{rform}", covers=["ode.solve_ode_ivp"])
+        def _(rng, lv, rform=rform):
+            kw, btf, _c = built_atom(rng, lv)
+            vals = (20.0, 1e-2) if rform != "int-array" else (20, 1)
+            table = np.full((3, 2), 5.5)
+            table[1] = vals
+            kw["r_interval"] = {"tuple": tuple(vals), "list": list(vals), "array": np.array(vals), "row-view": table[1],
+                                "int-array": np.array(vals)}[rform]
+            kw["ode_params"] = {"rtol": 1e-4, "atol": 1e-4}
+            tf = InverseRTransform(btf)
+
+            def call(grid, func_vals, pts, ode_params, r_interval):
+                return solve_poisson_ivp(grid, func_vals, tf, r_interval=r_interval, ode_params=ode_params)(pts)
+            return call, kw
 
 
 if __name__ == "__main__":
